@@ -898,14 +898,49 @@ func C06(c *core.Ctx, replay string) {
 		}
 	}
 	perRound := len(jobs) / rounds
+	// last round: valid uploads (no defective dimension) of 1-2 MiB in chunks far
+	// larger than any copy buffer, eight at a time, against a gateway restricted to
+	// two scheduler threads: "when all of them match, the stored object consists of
+	// exactly the received bytes" also while other uploads are being decoded
+	nLarge := 0
+	if replay == "" {
+		base := len(jobs)
+		for rep := 0; nLarge < c.Pick(60, 240) && rep < 200; rep++ {
+			for i := 0; i < perRound; i++ {
+				v := jobs[i].vec
+				if v.D != 0 || v.Req.Empty || v.Req.Target != "new" || len(v.Allowed) != 1 {
+					continue
+				}
+				jobs = append(jobs, job{cs: c06BindLarge(v, base+nLarge, c.Seed), vec: v})
+				nLarge++
+			}
+		}
+		c.Extra["large_concurrent_valid_uploads"] = nLarge
+	}
 	results := make([]c06Result, len(jobs))
 	workers := 8
 	if replay != "" {
 		workers = 1
 	}
-	for round := 0; round < rounds; round++ {
-		noTmp := round == 1
-		env := MustEnv(c, false, false, func(g *gw.Config) { g.NoTmp = noTmp })
+	for round := 0; round <= rounds; round++ {
+		lo, hi := round*perRound, (round+1)*perRound
+		large := round == rounds
+		noTmp := round == 1 && !large
+		if large {
+			lo, hi = rounds*perRound, len(jobs)
+			if lo == hi {
+				break
+			}
+		}
+		env := MustEnv(c, false, false, func(g *gw.Config) {
+			g.NoTmp = noTmp
+			if large {
+				if g.Env == nil {
+					g.Env = map[string]string{}
+				}
+				g.Env["GOMAXPROCS"] = "2"
+			}
+		})
 		if env == nil {
 			return
 		}
@@ -934,7 +969,7 @@ func C06(c *core.Ctx, replay string) {
 				}
 			}(w)
 		}
-		for i := round * perRound; i < (round+1)*perRound; i++ {
+		for i := lo; i < hi; i++ {
 			next <- i
 		}
 		close(next)
@@ -946,7 +981,7 @@ func C06(c *core.Ctx, replay string) {
 			c.Inconclusive("gateway process died during the run: %s", c06Tail(stderr, 600))
 			return
 		}
-		c.Logf("round %d (named temp files: %v): %d uploads executed", round, noTmp, perRound)
+		c.Logf("round %d (named temp files: %v, large concurrent: %v): %d uploads executed", round, noTmp, large, hi-lo)
 	}
 	c.Extra["rounds"] = rounds
 
@@ -1150,4 +1185,26 @@ func c06Tail(s string, n int) string {
 		return s[len(s)-n:]
 	}
 	return s
+}
+
+// c06BindLarge binds a valid vector to a payload of 1-2 MiB cut into chunks of
+// 128 KiB - 1 MiB.
+func c06BindLarge(v c06Vec, idx int, seed int64) c06Case {
+	rng := rand.New(rand.NewSource(seed*1000003 + int64(idx)*7919 + 23))
+	cs := c06Case{Req: v.Req, Class: v.Class, Allowed: v.Allowed, ID: fmt.Sprintf("c06L-%d-%d", seed, idx), OldLen: -1}
+	cs.PLen = 1<<20 + rng.Intn(1<<20)
+	if c06IsStream(v.Req.Mode) {
+		rest := cs.PLen
+		for rest > 0 {
+			n := 128<<10 + rng.Intn(896<<10)
+			if n > rest || rest-n < 2 {
+				n = rest
+			}
+			cs.Chunks = append(cs.Chunks, n)
+			rest -= n
+		}
+	}
+	cs.NJunk, cs.K2 = 1, 1
+	cs.Sent, cs.Decl = cs.PLen, cs.PLen
+	return cs
 }
